@@ -207,6 +207,7 @@ class EventMixin (object):
   _eventMixin_events = None
 
   _eventMixin_initialized = False
+  _eventMixin_spent = None # eids used up during the delivery in progress
 
   def _eventMixin_addEvents (self, events):
     for e in events:
@@ -292,31 +293,46 @@ class EventMixin (object):
     # Iterate over a snapshot: a handler may subscribe (which appends to and
     # possibly re-sorts this very list) or unsubscribe during delivery.
     handlers = list(self._eventMixin_handlers.get(eventType, []))
-    for (priority, handler, once, eid) in handlers:
-      # One-shot handlers go away even if they raise
-      if once: self.removeListener(eid)
-      if classCall:
-        rv = event._invoke(handler, *args, **kw)
-      else:
-        rv = handler(event, *args, **kw)
-      if rv is None: continue
-      if rv is False:
-        self.removeListener(eid)
-      if rv is True:
-        if classCall: event.halt = True
-        break
-      if type(rv) == tuple:
-        if len(rv) >= 2 and rv[1] == True:
+    # A handler may raise this event again from inside the delivery.  One-shot
+    # handlers and handlers that asked to be removed which such a nested
+    # delivery has used up are still in the outer snapshot: they must not be
+    # invoked again from there.
+    spent = self._eventMixin_spent
+    outermost = spent is None
+    if outermost: spent = self._eventMixin_spent = set()
+    try:
+      for (priority, handler, once, eid) in handlers:
+        if eid in spent: continue
+        # One-shot handlers go away even if they raise
+        if once:
           self.removeListener(eid)
-        if len(rv) >= 1 and rv[0]:
+          spent.add(eid)
+        if classCall:
+          rv = event._invoke(handler, *args, **kw)
+        else:
+          rv = handler(event, *args, **kw)
+        if rv is None: continue
+        if rv is False:
+          self.removeListener(eid)
+          spent.add(eid)
+        if rv is True:
           if classCall: event.halt = True
           break
-        if len(rv) == 0:
-          if classCall: event.halt = True
+        if type(rv) == tuple:
+          if len(rv) >= 2 and rv[1] == True:
+            self.removeListener(eid)
+            spent.add(eid)
+          if len(rv) >= 1 and rv[0]:
+            if classCall: event.halt = True
+            break
+          if len(rv) == 0:
+            if classCall: event.halt = True
+            break
+        #if classCall and hasattr(event, "halt") and event.halt:
+        if classCall and event.halt:
           break
-      #if classCall and hasattr(event, "halt") and event.halt:
-      if classCall and event.halt:
-        break
+    finally:
+      if outermost: self._eventMixin_spent = None
     return event
 
   def removeListeners (self, listeners):
